@@ -4,7 +4,7 @@ import sympy as sp
 from sympy import Symbol, Function, S, Rational
 from ..ir import (AnalysisBroken, Undecided, show, strip, strip_casts, walk_stmts, stmt_exprs, walk_expr, calls,
                   all_exprs, local_decls, make_generated, loop_container)
-from ..symx import Symx, State, Arr, is_zero
+from ..symx import Symx, State, Arr, is_zero, return_cases, cond_atoms, strict_ranges
 
 L = 'libphysica::'
 NU = L + 'natural_units::'
@@ -325,52 +325,68 @@ def in_units(prog, ctx):
     q, d = sx.symbol(scalar.params[0]['name'], 'double'), sx.symbol(scalar.params[1]['name'], 'double')
     rnd = sx.symbol(scalar.params[2]['name'], 'bool')
     dg = sx.symbol(scalar.params[3]['name'], 'int')
-    rets = [o for o in outs if o.kind == 'return']
-    plain = [o for o in rets if is_zero(o.value - q / d)]
-    rounded = [o for o in rets if isinstance(o.value, sp.core.function.AppliedUndef) and o.value.func.__name__ == L + 'Round'
-               and is_zero(o.value.args[0] - q / d) and o.value.args[1] == dg]
-    ok = len(rets) == 2 and len(plain) == 1 and len(rounded) == 1
+    rets = return_cases(outs)
+    plain = [(c_, v_) for c_, v_ in rets if is_zero(v_ - q / d)]
+    rounded = [(c_, v_) for c_, v_ in rets if isinstance(v_, sp.core.function.AppliedUndef) and v_.func.__name__ == L + 'Round'
+               and is_zero(v_.args[0] - q / d) and v_.args[1] == dg]
+    # rounding happens exactly when it is requested
+    on = (sp.Ne(rnd, 0), sp.Eq(rnd, 1), rnd)
+    ok = len(rets) == 2 and len(plain) == 1 and len(rounded) == 1 and any(a_ in on for a_ in cond_atoms(rounded[0][0])) \
+        and not any(a_ in on for a_ in cond_atoms(plain[0][0]))
     ctx.decide(R, 'In_Units(scalar)', scalar, ok, 'quantity/dimension, or Round(quantity/dimension, digits) when rounding is requested',
-               'scalar In_Units returns %s' % [(str(o.cond), str(o.value)) for o in rets])
+               'scalar In_Units returns %s' % [(str(c_), str(v_)) for c_, v_ in rets])
+    IU = Function(NU + 'In_Units', real=True)
+    k_, l_ = sp.symbols('k l', integer=True)
     for f in fns:
         if f is scalar:
             continue
         ps = [p['name'] for p in f.params]
         ty = f.params[0]['ty']
-        inner = [c for c in calls(f) if (c.get('callee') or {}).get('q') == NU + 'In_Units']
-        label = 'In_Units(%s,%s)' % (ty.replace('std::vector', 'vec').replace('libphysica::', '').replace('<double>', ''), 'list' if f.params[1]['ty'].startswith('std::vector') else 'scalar')
-        if len(inner) != 1:
-            ctx.violated(R, label, f, 'expected exactly one element-wise use of the scalar/inner overload, found %d' % len(inner))
+        listdim = f.params[1]['ty'].startswith('std::vector')
+        label = 'In_Units(%s,%s)' % (ty.replace('std::vector', 'vec').replace('libphysica::', '').replace('<double>', ''), 'list' if listdim else 'scalar')
+        sxf = Symx(prog, f)
+        qn, dn = ps[0], ps[1]
+        rnd_f, dg_f = sxf.symbol(ps[2], 'bool'), sxf.symbol(ps[3], 'int')
+        Qf = Function(qn, real=True)
+        two = listdim or ty == L + 'Matrix'
+        try:
+            with strict_ranges():
+                fouts = sxf.run()
+                frets = [o for o in fouts if o.kind == 'return']
+                if len(frets) != 1 or not isinstance(frets[0].value, Arr):
+                    raise Undecided('not a single path returning a container built element by element')
+                res = frets[0].value
+                got = res.read((k_, l_)) if two else res.read((k_,))
+        except Undecided as ex_:
+            ctx.undecided(R, label, f, 'conversion loop outside the understood fragment: %s' % ex_)
             continue
-        a = [show(strip_casts(x)).replace(' ', '') for x in inner[0]['args']]
-        loops = [s for s in walk_stmts(f.body) if s['k'] == 'For']
-        lvs = [s['init']['decls'][0]['name'] for s in loops]
-        depth = len(lvs)
-        idx = ''.join('[%s]' % v for v in lvs)
-        want0 = ps[0] + idx
-        if f.params[1]['ty'].startswith('std::vector'):
-            want1 = '%s[%s]' % (ps[1], lvs[-1]) if lvs else ps[1]
-        else:
-            want1 = ps[1]
+        dim_t = Function(dn, real=True)(l_) if listdim else sxf.symbol(dn, 'double')
+        want = IU(Qf(k_, l_) if two else Qf(k_), dim_t, rnd_f, dg_f)
         probs = []
-        if a[0] != want0:
-            probs.append('element argument is %s, expected %s' % (a[0], want0))
-        if a[1] != want1:
-            probs.append('dimension argument is %s, expected %s' % (a[1], want1))
-        if len(a) < 4 or a[2] != ps[2] or a[3] != ps[3] or inner[0]['args'][2].get('k') == 'DefaultArg' or inner[0]['args'][3].get('k') == 'DefaultArg':
-            probs.append('round/digits are not forwarded: %s' % a[2:])
-        # loop bounds cover the container
-        sxx = Symx(prog, f)
-        for s in loops:
-            cl = sxx.counted(s, State({}))
-            if not cl or cl[1] != 0:
-                probs.append('loop over %s does not start at 0' % s['init']['decls'][0]['name'])
-        # result element written at the same index
-        asg = [show(e['lhs']).replace(' ', '') for e in all_exprs(f) if e.get('k') == 'Bin' and e['op'] == '=' and any(x is inner[0] for x in walk_expr(e['rhs']))]
-        if not asg or not asg[0].endswith(idx if depth == 2 or not ty.startswith('std::vector<std::vector') else '[%s]' % lvs[0]):
-            probs.append('result is stored at %s' % asg)
-        ctx.decide(R, label, f, not probs, 'applies the inner form to every element with dimension %s and forwards round, digits' % want1, '; '.join(probs),
-                   witness={'call': a} if probs else None)
+        piece = got.args[0] if isinstance(got, sp.Piecewise) else (got, sp.true)
+        val, cnd = piece
+        if val != want:
+            inner_ = [a_ for a_ in (val.atoms(sp.core.function.AppliedUndef) if isinstance(val, sp.Basic) else []) if a_.func == IU]
+            if len(inner_) == 1 and val == inner_[0]:
+                ia = inner_[0].args
+                if ia[0] != want.args[0]:
+                    probs.append('element argument is %s, expected %s' % (ia[0], want.args[0]))
+                if len(ia) > 1 and ia[1] != want.args[1]:
+                    probs.append('dimension argument is %s, expected %s' % (ia[1], want.args[1]))
+                if tuple(ia[2:]) != (rnd_f, dg_f):
+                    probs.append('round/digits are not forwarded: %s' % [str(x_) for x_ in ia[2:]])
+            else:
+                probs.append('element (%s) of the result is %s, expected %s' % ('k,l' if two else 'k', val, want))
+        # every element of the input is converted: the index ranges start at 0 and end at the container's own size
+        ats = cond_atoms(cnd) if cnd not in (True, sp.true) else []
+        sizes = {str(sp.Symbol('len(%s)' % qn)), qn + '.dimension', qn + '.rows', qn + '.columns', 'len(%s[i])' % qn, 'len(%s)' % dn}
+        for var_ in ((k_, l_) if two else (k_,)):
+            lo_ok = sp.Ge(var_, 0) in ats
+            hi = [a_ for a_ in ats if isinstance(a_, sp.StrictLessThan) and a_.lhs == var_]
+            if not lo_ok or len(hi) != 1 or str(hi[0].rhs) not in sizes:
+                probs.append('index %s runs over %s, not over the whole container' % (var_, [str(a_) for a_ in ats if a_.has(var_)]))
+        ctx.decide(R, label, f, not probs, 'element-wise: result[k%s] = In_Units(%s[k%s], %s, round, digits) for every element' % (',l' if two else '', qn, ',l' if two else '', dim_t),
+                   '; '.join(probs), witness={'element': str(val)[:300]} if probs else None, form=str(got)[:300])
 
 
 # ----------------------------------------------------------------------------- C20.d writer / reader
@@ -495,11 +511,24 @@ def io(prog, ctx):
                         and [show(a).replace(' ', '') for a in (targs[0], targs[2], targs[3])] == [ps[0], ps[3], ps[4]]
             ctx.decide(R, 'Export_Function(list)', f, okf, 'Export_Table of the rows {x, f(x)} for every x of the list', 'Export_Function(list) not recognised')
         else:
+            # one delegation to the list overload with the grid Log_Space/Linear_Space(xMin, xMax, steps) selected by `logarithmic`
             dl = [c for c in calls(f) if (c.get('callee') or {}).get('q') == L + 'Export_Function']
-            grid = [d for d in local_decls(f) if d.get('init') is not None and 'Space' in show(d['init'])]
-            okf = len(dl) == 1 and len(grid) == 1
+            okf = len(dl) == 1
             if okf:
-                t = show(grid[0]['init']).replace(' ', '')
-                okf = t in ('%s?Log_Space(%s,%s,%s):Linear_Space(%s,%s,%s)' % (ps[6], ps[2], ps[3], ps[4], ps[2], ps[3], ps[4]),) and \
-                    [show(strip_casts(a)).replace(' ', '') for a in dl[0]['args']] == [ps[0], ps[1], grid[0]['name'], ps[5], ps[7]]
+                try:
+                    sxr = Symx(prog, f)
+                    routs = sxr.run()
+                except Undecided:
+                    routs = []
+                okf = len(routs) == 1
+                if okf:
+                    st_ = routs[0].state
+                    a_ = dl[0]['args']
+                    grid = sxr.sym_or_name(a_[2], st_)
+                    lo_, hi_, n_ = sxr.symbol(ps[2], 'double'), sxr.symbol(ps[3], 'double'), sxr.symbol(ps[4], 'unsigned int')
+                    lg = sxr.symbol(ps[6], 'bool')
+                    LS, LIN = Function(L + 'Log_Space', real=True)(lo_, hi_, n_), Function(L + 'Linear_Space', real=True)(lo_, hi_, n_)
+                    want_g = (sp.Piecewise((LS, sp.Ne(lg, 0)), (LIN, True)), sp.Piecewise((LIN, sp.Eq(lg, 0)), (LS, True)))
+                    okf = any(grid == w_ for w_ in want_g) and \
+                        [show(strip_casts(x_)).replace(' ', '') for x_ in (a_[0], a_[1], a_[3], a_[4])] == [ps[0], ps[1], ps[5], ps[7]]
             ctx.decide(R, 'Export_Function(range)', f, okf, 'tabulates on Linear_Space/Log_Space(xMin,xMax,steps) and delegates', 'Export_Function(range) not recognised')
